@@ -146,7 +146,8 @@ impl FileDesc {
                 })?;
 
                 if let SchemeSpecific::RaptorQ(scheme) = oti.scheme_specific.as_mut().unwrap() {
-                    scheme.source_blocks_length = nb_blocks;
+                    // Z must be at least 1 (RFC 6330), also for an empty object
+                    scheme.source_blocks_length = nb_blocks.max(1);
                 }
             } else if oti.fec_encoding_id == oti::FECEncodingID::Raptor {
                 if oti.scheme_specific.is_none() {
@@ -164,7 +165,8 @@ impl FileDesc {
                 })?;
 
                 if let SchemeSpecific::Raptor(scheme) = oti.scheme_specific.as_mut().unwrap() {
-                    scheme.source_blocks_length = nb_blocks;
+                    // Z must be at least 1 (RFC 5053), also for an empty object
+                    scheme.source_blocks_length = nb_blocks.max(1);
                 }
             }
         }
